@@ -4,8 +4,9 @@ class P(vlib.Prop):
     id = "C15"
     watch = ("pkg/apk/apk/version.go", "pkg/apk/apk/apkindex.go", "pkg/apk/apk/installed.go", "pkg/apk/apk/package.go", "pkg/apk/apk/index.go", "pkg/apk/apk/install.go",
              "pkg/apk/expandapk/*.go", "pkg/passwd/*.go", "pkg/build/sbom.go", "pkg/build/lock.go", "pkg/build/layers.go", "pkg/lock/lock.go",
-             "pkg/build/types/*.go", "pkg/baseimg/*.go", "pkg/tarfs/fs.go", "pkg/apk/fs/rwosfs.go")
-    rule = ("three stages. readers: (a) Coq cases: hand-picked corners first (every fixed defect and finding replay: 'P\\n', one-byte lines, empty tar entry name, empty path, "
+             "pkg/build/types/*.go", "pkg/baseimg/*.go", "pkg/tarfs/fs.go", "pkg/apk/fs/rwosfs.go", "pkg/paths/paths.go", "pkg/apk/apk/util.go", "pkg/apk/apk/cache.go",
+             "pkg/apk/apk/resolveapk.go", "pkg/apk/apk/repository.go", "pkg/apk/auth/auth.go", "pkg/build/busybox.go", "internal/cli/lock.go", "internal/cli/publish.go")
+    rule = ("four stages. readers: (a) Coq cases: hand-picked corners first (every fixed defect and finding replay: 'P\\n', one-byte lines, empty tar entry name, empty path, "
             "negative layer budget), then the four line-oriented readers on mutated well-formed documents (truncation, byte/bit edits, splices, line edits); the "
             "implementation's outcome class (returned / error / panic / timeout, under recover and a 3 s deadline) is compared with the model's class and judged by the validator. "
             "(b) exploration in Go only, reported as IMPL-VIOLATION lines and counted in STAT: 14 readers on the empty input, truncations at every offset (sampled above 600 bytes), "
@@ -17,7 +18,15 @@ class P(vlib.Prop):
             "the scanner's token limit (must be an error) and one byte less (must be read), hostile signature entry names, unify without architectures. "
             "decoders (Go only, exploration): 2215 structured hostile inputs (tar header fields, PAX records, gzip framing, YAML aliases/nesting/includes/numbers, JSON nesting/numbers/types, OCI layout "
             "descriptors) through IndexFromArchive, Split, ExpandApk, ParsePackage, the install loop + installed database, lock.FromFile, ImageConfiguration.Load+Validate, baseimg.New, in child "
-            "processes under a 4 GiB address-space limit and a per-call deadline; a death of the child (stack overflow, out of memory) is attributed to the case that was running. distinct = distinct case terms.")
+            "processes under a 4 GiB address-space limit and a per-call deadline; a death of the child (stack overflow, out of memory) is attributed to the case that was running. "
+            "Session 4: readers also gets every sequence of up to 3 lines (4 in thorough) over the file letters of the installed database (F/R/a/M/Z, blank, malformed perms, P) and sampled longer ones; "
+            "sites also gets os-release value shapes (every value of up to 3 bytes over quote/letter/space/=/'), ExpandApk / Split / ResolveApk on member sequences over SIX kinds (two more: a valid gzip stream holding only a tar "
+            "end marker, a valid gzip stream that is no tar), controlValue through the whole InstallPackages pipeline (values of `triggers` read back from lib/apk/db/triggers), '!name' constraints through the resolver, "
+            "groupByOriginAndSize's cut (groups x budgets), RepoAbbr, EnvAuth.AddAuth, etagFromResponse, each compared with its model in Coq; decoders also gets the family declared-size: tar members whose header (ustar octal, GNU "
+            "base-256, PAX size record) declares 2^31..2^63-1 bytes with 0 or 3 bytes following, under every member name each tar reader reads (APKINDEX, DESCRIPTION, .SIGN.*, .PKGINFO, scripts, data entries), for IndexFromArchive, "
+            "parseRepositoryIndex, Split, ExpandApk, ParsePackage, NewAPKFS, the install loop and InstallPackages on tarfs and memfs: a panic, a death of the child, a timeout or more than 256 MiB allocated during the call is a violation; "
+            "includes (new stage): ImageConfiguration.Load on real directory trees (working directory, include paths, relative includes, one file under different spellings, undecodable files), class and merged contents.packages "
+            "compared with the model load_config (paths.ResolvePath + the kernel's path walk) at fuel 40 and at the proved bound |files|+2; a load that does not come back (stack growth or 20 s) is finding C15-F6. distinct = distinct case terms.")
     stages = (
         dict(name="readers", cmd="c15", args=lambda t, s: []),
         dict(name="sites", cmd="c15", args=lambda t, s: ["-stage", "sites"]),
@@ -29,24 +38,29 @@ class P(vlib.Prop):
         "bufio.Scanner's line splitting and token limit, strings.Fields / Cut / Trim / IndexAny / TrimSuffix / HasPrefix are modelled (Base/C16Lib, Model/Parsers.v) and the facts the callers rely on are lemmas about those models",
         "the regexp engine returns submatch vectors of 1 + NumSubexp entries; the group counts are computed from the regex literals goextract reads from the source",
         "M: lines that do not directly follow their F: line are outside the model (stale pointer after slice growth); such mutated texts are run in Go only",
-        "ExpandApk / Split: a gzip member is abstracted to one of four kinds; what the gzip and tar readers do inside a member is the library's business (compared on 682 member sequences per run)",
+        "ExpandApk / Split / ResolveApk: a gzip member is abstracted to one of six kinds (signature tar, other tar, gzip of nothing, corrupt gzip, end marker only, no tar); what the gzip and tar readers do inside a member is the library's business (compared on every sequence of up to 4 members, 1555 x 2 in thorough)",
+        "ImageConfiguration.Load: a file is its marker and its include field (or undecodable); the file tree has no symbolic links; os.Stat / os.ReadFile are the model's path walk (a name is looked up in an existing directory, '..' of the root is the root)",
+        "RemoveLabel, parseAnnotations, parseAlpineVersion, fetchOffline, installBusyboxLinks are modelled and tied to the source by pinned site lists / guards / regex group counts / loop shape, but not run against the model (not importable or behind network)",
         "index / slice expressions and length guards of the transcribed functions are read from the source with local names erased and pinned by c15_sites_pinned: an edit that adds or changes one breaks the theorem",
     )
-    level_text = ("43 theorems, all closed. For ALL inputs the models, written with checked slicing / indexing, return a result or an error, never Panic and never out of fuel: the line-oriented readers "
+    level_text = ("66 theorems, all closed. For ALL inputs the models, written with checked slicing / indexing, return a result or an error, never Panic and never out of fuel: the line-oriented readers "
                   "(ParsePackageIndex, ParseInstalled + parseInstalledPerms, UserFile.Load, GroupFile.Load, readReleaseData), ParseVersion / ResolvePackageNameVersionPin (group counts of the source's "
                   "regexes), cachedPackage, checksumFromHeader (three copies), the '@tag url' splitter of GetRepositoryIndexes (with a UTF-8 aware model of strings.Fields whose 'no empty field' contract is "
                   "a lemma), unify's constraint splitter (IndexAny result in range), ExpandApk's section indices for EVERY number of gzip members (table read from the source's switch, plus the member loop: "
-                  "at most 3 members are collected), Split/ParsePackageInfo, the signature-name test and b[readBytes:] of parseRepositoryIndex, ParseArchitectures, the install loops' name test, "
-                  "standardizePath, the layer budget. Token limit: for each of the five line readers a line that does not fit the limit the source sets makes the reader return an error "
-                  "(c15_long_line_is_error_*), never a shortened result. No loop without consuming input: every reader model is a structural recursion over the scanned lines / members; the one fuel "
-                  "(sortTarHeaders) is proved sufficient on EVERY header list without an entry whose cleaned name is '.', the excluded shape being finding C15-F4 (refuted, witness replayed). "
-                  "Refuted with witnesses replayed on the real code: the self-child directory (C15-F4), the include cycle of ImageConfiguration.Load (C15-F6), unify without architectures (API only). "
-                  "Both repairs (fixes/C15-F4.patch, fixes/C15-F6.patch) are modelled, proved to end on every input and to agree with today's code wherever today's code returns.")
+                  "at most 3 members are collected, plus the tar scan of the control and data sections over six member kinds), Split/ParsePackageInfo/ResolveApk, the signature-name test and b[readBytes:] of "
+                  "parseRepositoryIndex, ParseArchitectures, the install loops' name test, standardizePath, the layer budget and groupByOriginAndSize's cut, and (session 4) parseAlpineVersion, fetchOffline, "
+                  "etagFromResponse, controlValue, installBusyboxLinks, EnvAuth.AddAuth, parseAnnotations, the '!name' constraints. Token limit: for each of the five line readers a line that does not fit the limit "
+                  "the source sets makes the reader return an error (c15_long_line_is_error_*), never a shortened result. Bounded work: the scanner loops run at most |input|+1 turns, strings.Fields looks at every byte once, "
+                  "RemoveLabel's loop needs at most |s| turns (fuel proved sufficient), sortTarHeaders' fuel S(S(len)) suffices on every header list without an entry whose cleaned name is '.', and "
+                  "ImageConfiguration.Load on a file tree (paths.ResolvePath modelled: working directory first, then each include path; relative includes) returns whatever it returns within |files|+2 loads. "
+                  "Refuted with witnesses replayed on the real code: the self-child directory (C15-F4); the include cycle (C15-F6), now for EVERY cycle of resolved paths whatever the spellings "
+                  "(c15_include_cycle_any_spelling, five spelled witnesses on trees); unify without architectures, groupByOriginAndSize with MinInt64, RepoAbbr on a URI without '/' (three API-only shapes, no caller in apko). "
+                  "Both repairs (fixes/C15-F4.patch, fixes/C15-F6.patch) are modelled, proved to end on every input (F6: on every tree, although it compares resolved paths as text) and to agree with today's code wherever today's code returns.")
     level_note = ("partial: proof for the modelled readers only; gzip/tar/yaml/json/ini decoding inside Split, ExpandApk, IndexFromArchive, ParsePackage, lock.FromFile, the YAML loader and baseimg.New is "
-                  "explored with malformed streams and 2215 structured hostile inputs under recover + deadline + memory ceiling (not a proof). trusted: Coq kernel, goextract, harness; "
+                  "explored with malformed streams and 3332 structured hostile inputs (among them 1100 declared-size archives with allocation accounting) under recover + deadline + memory ceiling (not a proof). trusted: Coq kernel, goextract, harness; "
                   "modelled not verified: the Go text of the readers")
     design_ref = "DESIGN.md 7 C15"
     modelled_not_verified = ("readers' control flow modelled by hand in Model/Formats.v and Model/Parsers.v; line guards, case letters, regex literals, scanner limits and Err() checks, separators, "
-                             "the ExpandApk switch table, stream limits, and the index / slice sites and length guards of every transcribed function are regenerated from the source (Generated/FieldLetters.v, C15Sites.v)")
+                             "the ExpandApk switch table, stream limits, and the index / slice sites and length guards of every transcribed function (27 functions), the group counts of repoRE and basicSemverRegex, RemoveLabel's loop shape and the absence of a sized read in IndexFromArchive are regenerated from the source (Generated/FieldLetters.v, C15Sites.v)")
 
 PROP = P()
